@@ -185,15 +185,18 @@ PROPS = {
                       "product (bit-level, every alignment, stale bits overwritten); ValueRef::{first_bit, as_left, as_right, as_product} return exactly "
                       "the stated sub-range and `None` exactly on a wrong tag/shape; Value::{unit, left, right, product, zero, from_padded_bits}; "
                       "constructor/accessor inverse theorems; RawByteIter::next; CompactBitsIter (worklist invariant: yields exactly "
-                      "`compact(padded bits, type)` = the padded encoding minus padding). PARTIAL: see level_note.",
-        "level_note": "Value::from_compact_bits and Value::prune are under a TYPING + TOTALITY contract only (task-machine worklist invariant: no panic, terminates, "
-                      "result well-formed and of exactly the requested type); their bit-level functional clauses (decode inverts encode, prune keeps tags/leaves, two-step = one-step) "
-                      "are not decided. Not under contract: iter_padded's Take<BitIter<..>> adaptor, the Word/uN constructors. Assumed: Arc<[u8]>/Box/Vec conversions (R8 helpers), TMR injectivity, BitIter contracts imported from unit bitstream.",
+                      "`compact(padded bits, type)` = the padded encoding minus padding); Value::from_compact_bits FUNCTIONALLY: the value returned has as its compact encoding "
+                      "exactly the compact code at the head of the input (`cdec`), exactly those bits are consumed, and (theorem_compact_round_trip, with lemma_cdec_of_compact) decoding "
+                      "`compact(v) ++ anything` gives back the same element and leaves `anything` - proved by a second worklist invariant over a spec machine that reads the future input. "
+                      "PARTIAL: see level_note.",
+        "level_note": "Value::prune is under a TYPING + TOTALITY contract only (task-machine worklist invariant: no panic, terminates, "
+                      "result well-formed and of exactly the requested type); its functional clauses (prune keeps tags/leaves, two-step = one-step) "
+                      "are not decided (an attempt with the same technique exceeded the solver's resource limit and was withdrawn; bounded native enumeration only). Not under contract: iter_padded's Take<BitIter<..>> adaptor, the Word/uN constructors. Assumed: Arc<[u8]>/Box/Vec conversions (R8 helpers), TMR injectivity, BitIter contracts imported from unit bitstream.",
         "assumptions": [
             "Arc<[u8]> / Box<[u8]> / Vec<u8> conversions preserve the byte sequence (R8 helpers)",
             "type widths below 2^60 bits (no saturation)",
         ],
-        "not_decided": ["from_compact_bits: consumed bits = compact encoding of the result (only typing/totality proved)", "prune: tags/leaf data preserved, two-step = one-step (only typing/totality proved)", "iter_padded adaptor"],
+        "not_decided": ["prune: tags/leaf data preserved, two-step = one-step (only typing/totality proved)", "iter_padded adaptor"],
         "explanation": "",
     },
     "C12": {
